@@ -9,7 +9,7 @@ if not os.path.exists(wt):
     subprocess.check_call(["git", "-C", "/repo", "worktree", "add", "-q", "--detach", wt, "HEAD"])
 d = [json.loads(l) for l in open("/verif/properties.jsonl")]
 d = [x for x in d if x["id"] == pid][0]
-letters = ("abcdef" if WAVE == 1 else "cdefgh")[:n]
+letters = {1: "abcdef", 2: "cdefgh", 3: "efghij"}[WAVE][:n]
 anch = d["anchors"]
 mech = "\n".join(f"  - {m['name']} ({m['where']})" for m in anch.get("mechanism", []))
 state = "\n".join(f"  - {m['name']}: {m.get('meaning','')} ({m['where']})" for m in anch.get("state", []))
@@ -52,6 +52,7 @@ arithmetic / indexing / ordering / aliasing faults over crashes. The changes sho
 the property.
 
 {"This is a SECOND round: an earlier round already produced the most natural slips (dropped copies / aliasing of int8 arrays, parallel-edge overwrites, nx/ny swaps, off-by-one thresholds, one-shot iterators, unseeded RNG draws). Look for DIFFERENT mechanisms and clauses of the property than those: less-travelled clauses of the statement, interactions between two functions, behaviour that depends on call order or on cached state, inputs at the edge of the quantified domain." if WAVE > 1 else ""}
+{"THIRD round: two earlier rounds also used up: memoisation keyed on id()/sizes, np.sum-instead-of-np.any on crossing vectors (opposite signs cancel), ties / exact-boundary comparisons (< vs <=, heaviside), early-return rewrites, dropped transposes, in-place edits of cached arrays, float-rounded integer arithmetic for huge n. Find something else again: e.g. a fault that needs a SEQUENCE of three operations, a dependence on dtype or memory layout (F-ordered, non-contiguous, uint, float crossings), an index that is wrong only for the LAST/FIRST element or when two indices coincide, a default argument, sorting stability, an iteration order, negative indices, empty selections. Do NOT use git stash (shared between worktrees)." if WAVE > 2 else ""}
 
 For each change (call them {', '.join(letters)}) write into {wt}/out/<letter>/ :
  - patch.diff  (`git diff` in the worktree with only that change applied)
